@@ -302,11 +302,22 @@ TEXT = {
           "list and each element lies on exactly one page; model tied by a differential stream over the full uint32 range "
           "and by every page of every paged getter of every registered service (found by reflection) on ledgers whose "
           "collections span several pages; the JSON-RPC server is driven in a child process over all five transports with a "
-          "per-request answer monitor derived from JSON-RPC 2.0.",
+          "per-request answer monitor derived from JSON-RPC 2.0, and its dispatch logic has a Lean model (Model/JsonRpc.lean) with "
+          "kernel-checked theorems (Props/C18Rpc.lean): no JSON value reaches a panic site (nil message, reqs[0], "
+          "Method[0:-1]), a batch is answered by exactly one reply per element that is neither notification nor response-shaped, in "
+          "order, with the element's id or null, every non-object and every method-less non-response gets -32600, the former "
+          "counterexamples [null], [call,null], [null,call] by evaluation, id kinds as hasValidID has them; tied by one rpc-req "
+          "line per well-formed directed request and transport (the model recomputes the shape of the real answer with the "
+          "registry reflected from the served services) and by AST facts of readBatch / parseMessage / handleBatch / the "
+          "classification predicates / the dispatch switches / the error codes pinned by theorems.",
   "design_ref": "§3 C18",
-  "note": "JSON-RPC server survival and the content of embedded getters are not theorems (runtime / correspondence); known "
+  "note": "Of the JSON-RPC server the dispatch from a syntactically valid JSON value to the shape of the answer is proved and "
+          "compared; what a registered method returns once entered (result / typed-argument error / method error = class app), "
+          "malformed text, HTTP refusals, the transports and process survival are runtime monitors; deviations of the code from "
+          "JSON-RPC 2.0 that the model follows are listed in Props/C18Rpc.lean (boolean ids, unchecked version member, "
+          "case-insensitive members, response-shaped messages dropped). The content of embedded getters is not a theorem; known "
           "findings F2b (index*size wrap in the reward / epoch history pagers) and F23 (AcceleratorApi.GetAll unbounded).",
-  "technique": "Lean 4 proof (omega) + differential correspondence",
+  "technique": "Lean 4 proof (omega, induction, case analysis, decide) + regenerated facts from AST and reflection + differential correspondence",
  },
  "C14": {
   "text": "Kernel-checked theorems over the Go-faithful model of higherPriority (uint64 products), filterBlocksToCommit "
